@@ -92,6 +92,14 @@ def judge_doc(ns, seed, script, final_newline, charset, single):
 
 
 def report(ctx, ns, seed, final_newline, charset, single, sym, detail):
+    # bound the effort on a badly broken tree: after 8 minimised reports of one symptom in this shard the further
+    # occurrences are only counted (they would collapse into the same signatures anyway)
+    key = 'minimised reports: ' + sym.split(':')[0]
+    if ctx.counters[key] >= 8:
+        ctx.count('further occurrences not minimised: ' + sym.split(':')[0])
+        return
+    ctx.count(key)
+
     # 1. fewer grids
     cur = list(ns)
     for i in range(len(cur) - 1, -1, -1):
